@@ -113,6 +113,24 @@ def extract(tree):
     if len(re.findall(r"sched_id\s*\+\+|\+\+\s*\w+(?:->|\.)sched_id|sched_id\s*[-+]?=[^=]", l1)) != (1 if c["resumeBumps"] else 0):
         raise ExtractError("ev.c: janet_loop1: unexpected write to a sched_id")
     _need(_ws("while (janet_vm.spawn.head != janet_vm.spawn.tail) {"), l1, "janet_loop1: run phase loop")
+    # supervisor event of a finished / signalling fiber: pushed from the run phase with mode 2 (no root fiber)
+    sup_head = _ws("void *sv = task.fiber->supervisor_channel;")
+    sup_cond = _ws("} else if (sig == JANET_SIGNAL_OK || (task.fiber->flags & (1 << sig))) { JanetChannel *chan = janet_channel_unwrap(sv);")
+    sup_plain = sup_cond + r"\s*" + _ws("janet_channel_push(chan, make_supervisor_event(janet_signal_names[sig], task.fiber, chan->is_threaded), 2); } else if (!is_suspended) {")
+    sup_guard = sup_cond + r"\s*" + _ws("janet_chan_lock(chan); if (chan->closed) { janet_chan_unlock(chan); if (!is_suspended) { janet_stacktrace_ext(task.fiber, res, \"\"); } } else { "
+                                        "janet_channel_push_with_lock(chan, make_supervisor_event(janet_signal_names[sig], task.fiber, chan->is_threaded), 2); } "
+                                        "} else if (!is_suspended) {")
+    _need(sup_head, l1, "janet_loop1: supervisor channel of the task's fiber")
+    plain, guard = re.search(sup_plain, l1, re.S), re.search(sup_guard, l1, re.S)
+    if bool(plain) == bool(guard):
+        raise ExtractError("ev.c: janet_loop1: push of the supervisor event not recognised")
+    c["supervisorSkipsClosed"] = bool(guard)
+    _need(_ws("static int janet_channel_push(JanetChannel *channel, Janet x, int mode) { janet_chan_lock(channel); "
+              "return janet_channel_push_with_lock(channel, x, mode); }"), src, "janet_channel_push = lock + push_with_lock")
+    ego = corefn_body(src, "cfun_ev_go")
+    _need(_ws("void *supervisor = janet_optabstract(argv, argc, 2, &janet_channel_type, janet_vm.root_fiber->supervisor_channel);"), ego, "ev/go: supervisor argument")
+    _need(_ws("fiber->flags |= JANET_FIBER_MASK_ERROR |"), ego, "ev/go: error signals of a task function go to the supervisor")
+    _need(_ws("fiber->supervisor_channel = supervisor; janet_schedule(fiber, value);"), ego, "ev/go: supervisor stored, fiber scheduled")
     _need(_ws("if (to.fiber->sched_id == to.sched_id) {"), l1, "janet_loop1: timer sched_id test")
 
     # ---- push
@@ -123,6 +141,7 @@ def extract(tree):
     m = _need(_ws("if (janet_q_push(&channel->items, &x, sizeof(Janet))) {") + r".*?" +
               r"else\s+if\s*\(\s*janet_q_count\s*\(\s*&channel->items\s*\)\s*(>=|>)\s*channel->limit\s*\)", pw, "push: capacity test")
     c["pushBlocksStrict"] = m.group(1) == ">"
+    _need(_ws("if (mode == 2) { janet_chan_unlock(channel); return 1; }"), pw, "push: mode 2 (from the loop, no root fiber) never registers")
     _need(_ws("pending.fiber = janet_vm.root_fiber, pending.sched_id = janet_vm.root_fiber->sched_id, "
               "pending.mode = mode ? JANET_CP_MODE_CHOICE_WRITE : JANET_CP_MODE_WRITE; "
               "janet_q_push(&channel->write_pending, &pending, sizeof(pending));"), pw, "push: writer registration")
@@ -194,7 +213,8 @@ def extract(tree):
     return c
 
 
-ORDER = ["pushBlocksStrict", "choiceReadyStrict", "choiceGiveSeesReader", "popSkipsStaleWriter", "closeChecksSched", "resumeBumps"]
+ORDER = ["pushBlocksStrict", "choiceReadyStrict", "choiceGiveSeesReader", "popSkipsStaleWriter", "closeChecksSched", "resumeBumps",
+         "supervisorSkipsClosed"]
 
 
 def render(tree):
@@ -207,6 +227,7 @@ def render(tree):
         "popSkipsStaleWriter": "janet_channel_pop_with_lock skips pending writers whose sched_id is stale",
         "closeChecksSched": "cfun_channel_close compares sched_ids before waking a local waiter",
         "resumeBumps": "run phase of janet_loop1: `task.fiber->sched_id++` between the stale-task filter and janet_continue_signal",
+        "supervisorSkipsClosed": "run phase of janet_loop1: the supervisor event is not pushed into a closed supervisor channel",
     }
     for k in ORDER:
         out.append("/-- %s -/" % doc[k])
